@@ -95,13 +95,19 @@ def shuffle_masks(n, seed, nseed, thorough):
     M = []
     if n == 2:
         return uniq([[a, b] for a in range(4) for b in range(4)])
-    if n == 4 and thorough:
+    if n == 4:
+        # exhaustive for <= 4 lanes (the property's quantifier), in both tiers
         return uniq([[a, b, c, d] for a in range(8) for b in range(8) for c in range(8) for d in range(8)])
     x = list(range(n))
     y = list(range(n, 2 * n))
     M += [x, y, x[::-1], y[::-1]]                                            # is_swizzle_fst / snd
     M.append([(i // 2) + n * (i % 2) for i in range(n)])                     # zip_lo
     M.append([n // 2 + (i // 2) + n * (i % 2) for i in range(n)])            # zip_hi
+    # interleaves of every stride/offset (what a zip detector may confuse with zip_lo / zip_hi)
+    for stride in (1, 2):
+        for off in (0, 1, n // 4, n // 2, n // 2 + 1):
+            M.append([((off + stride * (i // 2)) % n) + n * (i % 2) for i in range(n)])
+            M.append([((off + stride * (i // 2)) % n) + n * (1 - i % 2) for i in range(n)])
     M.append([i + n * (i % 2) for i in range(n)])                            # select (blend) alternating
     M.append([i + n * ((i // 2) % 2) for i in range(n)])
     M.append([i + (n if i >= n // 2 else 0) for i in range(n)])              # select halves
